@@ -86,7 +86,28 @@ func c12(c *core.Ctx) {
 		if len(eps) < 2 {
 			c.Missing("inprocgrpc channel type with Invoke and NewStream")
 		}
-		for _, e := range eps {
+		// helpers of the package called from the entry points are part of the name handling
+		core.ComputeParamLenHints(p.LibFuncs("inprocgrpc"))
+		seenH := map[*ssa.Function]bool{}
+		epsR1 := append([]ep{}, eps...)
+		for _, e := range append([]ep{}, eps...) {
+			core.Instrs(e.fn, func(in ssa.Instruction) {
+				if call, ok := in.(*ssa.Call); ok {
+					h := core.InfoOf(&call.Call).Static
+					if h == nil || h.Blocks == nil || !core.PkgIs(h, "inprocgrpc") || seenH[h] || h.Signature.Recv() != nil {
+						return
+					}
+					for _, a := range call.Call.Args {
+						if core.TypeStr(a.Type()) == "string" {
+							seenH[h] = true
+							epsR1 = append(epsR1, ep{core.FuncName(h), h})
+							return
+						}
+					}
+				}
+			})
+		}
+		for _, e := range epsR1 {
 			for _, ob := range core.BoundsOf(e.fn) {
 				if ob.Proven {
 					if strings.Contains(ob.Why, "array type") {
@@ -253,9 +274,37 @@ func c12Lookup(c *core.Ctx, name string, fn *ssa.Function) {
 			}
 		}
 	}
-	fromMethod := func(v ssa.Value, idx int64) bool {
+	var fromMethodIn func(v ssa.Value, idx int64, mpar ssa.Value, depth int) bool
+	fromMethod := func(v ssa.Value, idx int64) bool { return fromMethodIn(v, idx, methodParam, 0) }
+	fromMethodIn = func(v ssa.Value, idx int64, methodParam ssa.Value, depth int) bool {
 		// v = *(&split[idx]) where split = strings.SplitN(method'[1:], "/", 2)
 		return core.OriginIs(v, func(o ssa.Value) bool {
+			// through a repo helper: result k of H(method') where H's return k is segment idx of its parameter
+			if call, k, isCall := core.CallResult(o); isCall && depth < 2 {
+				if h := core.InfoOf(&call.Call).Static; h != nil && h.Blocks != nil && core.PkgIs(h, "inprocgrpc") {
+					for ai, a := range call.Call.Args {
+						if !derivesFromString(a, methodParam) || ai >= len(h.Params) {
+							continue
+						}
+						okAll, n := true, 0
+						for _, r := range core.Returns(h) {
+							if k >= len(r.Results) {
+								continue
+							}
+							if s, isC := core.ConstString(r.Results[k]); isC && s == "" {
+								continue // the failure return
+							}
+							n++
+							if !fromMethodIn(r.Results[k], idx, h.Params[ai], depth+1) {
+								okAll = false
+							}
+						}
+						if n > 0 && okAll {
+							return true
+						}
+					}
+				}
+			}
 			u, ok := o.(*ssa.UnOp)
 			if !ok || u.Op != token.MUL {
 				return false
